@@ -292,6 +292,23 @@ def extract(repo):
         return 'absent'
     grab('kvsVisibleAdvance', kvs_visible_advance)
     grab('sync42MaxConcurrency', lambda: eval_int(const_int(read(repo, 'sync42/src/lib.rs'), 'MAX_CONCURRENCY')))
+    # lsmtk scheduling options (C20): defaults of the limits and thresholds the selector reads, NUM_LEVELS
+    def lsmtk_default(field):
+        m = re.search(r'impl Default for LsmtkOptions\s*\{.*?\n\}', read(repo, 'lsmtk/src/lib.rs'), re.S)
+        if not m:
+            raise Missing('Default for LsmtkOptions')
+        f = re.search(r'\b%s\s*:\s*([^,\n]+),' % field, m.group(0))
+        if not f:
+            raise Missing('LsmtkOptions.' + field)
+        return eval_int(f.group(1).strip())
+    for key, field in [('lsmtkDefaultMaxOpenFiles', 'max_open_files'), ('lsmtkDefaultMaxCompactionBytes', 'max_compaction_bytes'),
+                       ('lsmtkDefaultMaxCompactionFiles', 'max_compaction_files'),
+                       ('lsmtkDefaultL0MandatoryFiles', 'l0_mandatory_compaction_threshold_files'),
+                       ('lsmtkDefaultL0MandatoryBytes', 'l0_mandatory_compaction_threshold_bytes'),
+                       ('lsmtkDefaultL0StallFiles', 'l0_write_stall_threshold_files'),
+                       ('lsmtkDefaultL0StallBytes', 'l0_write_stall_threshold_bytes')]:
+        grab(key, lambda field=field: lsmtk_default(field))
+    grab('lsmtkNumLevels', lambda: eval_int(const_int(read(repo, 'lsmtk/src/tree/mod.rs'), 'NUM_LEVELS')))
     grab('skipfreeDefaultMaxHeight', lambda: eval_int(const_int(read(repo, 'skipfree/src/lib.rs'), 'DEFAULT_MAX_HEIGHT')))
     grab('skipfreeBranching', lambda: eval_int(const_int(read(repo, 'skipfree/src/lib.rs'), 'BRANCHING')))
     c09_consts(repo, grab)
